@@ -197,7 +197,7 @@ func runCrashSuite(seed uint64, n int, out *Out, stats *Stats) {
 		r := NewRng(seed*67867967 + uint64(i))
 		set := pickSettings(r)
 		set.Limit = 1440
-		set.Timeout = 300 * time.Millisecond
+		set.Timeout = 2 * time.Second
 		w := &World{r: r, set: set, stats: NewStats(), mode: "honest"}
 		for k := 0; k < 5; k++ {
 			w.wallets = append(w.wallets, NewWallet(k))
